@@ -449,19 +449,23 @@ def init_line(cfg):
 # generators
 # ------------------------------------------------------------------------------------------
 NICKS = ['alice', 'Bob', 'carl', 'dave[1]', 'Eve^', 'f|ro', 'Gus`', 'hal_9', 'x-y']
-CHANS = ['#chan', '#Dev', '&local', '#a[1]', '#x|y']
-_SWAP = str.maketrans('abcdefghijklmnopqrstuvwxyzABCDEFGHIJKLMNOPQRSTUVWXYZ[]{}\\|^', 'ABCDEFGHIJKLMNOPQRSTUVWXYZabcdefghijklmnopqrstuvwxyz{}[]|\\^')
+CHANS = ['#chan', '#Dev', '&local', '#a[1]', '#x|y', '#t~z^']
+_SWAP = str.maketrans('abcdefghijklmnopqrstuvwxyzABCDEFGHIJKLMNOPQRSTUVWXYZ[]{}\\|', 'ABCDEFGHIJKLMNOPQRSTUVWXYZabcdefghijklmnopqrstuvwxyz{}[]|\\')
+_SWAP_CHAN = str.maketrans('abcdefghijklmnopqrstuvwxyzABCDEFGHIJKLMNOPQRSTUVWXYZ[]{}\\|^~', 'ABCDEFGHIJKLMNOPQRSTUVWXYZabcdefghijklmnopqrstuvwxyz{}[]|\\~^')
 def casevar(r, s, keep=0):
-    """a spelling of s that is equal under rfc1459 rules (first `keep` characters untouched)"""
+    """a spelling of s that is equal under rfc1459 rules (first `keep` characters untouched).
+    `~` is not allowed in nicks (it is a status sigil), so the ^/~ pair is only swapped in channel names and masks
+    (keep > 0 or the string is not a nick)."""
+    tab = _SWAP_CHAN if (keep > 0 or '!' in s) else _SWAP
     out = []
     for i, c in enumerate(s):
-        out.append(c.translate(_SWAP) if i >= keep and r.random() < 0.5 else c)
+        out.append(c.translate(tab) if i >= keep and r.random() < 0.5 else c)
     return ''.join(out)
 
 TEXTS = ['', 'hello world', ':colon first', 'tschüß 中文 😀', 'a  b', ' lead', 'trail ', '+o', '#chan', '0123']
 KEYS = ['secret', 'k3y', '0123', '10', '+5', '1_0', 'pass:word', 'ÜBER']
 LIMITS = ['10', '5', '007', '100', 'x']
-BANS = ['*!*@evil.host', 'Bad!*@*', 'bad!*@*', '*!~id@*', '[x]!*@*', '{X}!*@*', '*!*@10.0.0.*']
+BANS = ['*!*@evil.host', 'Bad!*@*', 'bad!*@*', '*!~id@*', '*!^ID@*', '[x]!*@*', '{X}!*@*', '*!*@10.0.0.*']
 IDENTS = ['~al', 'bob', 'id3', '~x', 'limnoria']
 HOSTS = ['host.one', 'Host.Two', '10.0.0.1', 'cloak/user', 'a:b::1']
 FLAGS = 'imnpstrCR'
@@ -600,7 +604,7 @@ def gen_hostile(r, S):
     pool = ([me, casevar(r, me), '', '1', '2', '#chan', '#Chan', '&local', '#chan,#Dev', '#new', 'nochan', '@', '=', '*', '+o', '-o', '+ov', '+k',
              '-k', '+l', '-l', '+b', '+bb', '+stn', '+e', '+I', '+q', '-sb', '+o-v+k', 'alice', 'ALICE', 'Bob', 'alice,Bob', 'alice,%s,Bob' % me,
              '@alice +Bob', '@+alice!~al@host.one %Bob', '@ + @+', 'alice!u@h', '+alice!u@h', '@%+&~!x', '&~y', '!z', '10', '0123', '1_0', ' 7 ',
-             '-3', 'x y', 'key', '*!*@evil.host', 'None', '٣'] + [u.nick for u in S.users.values()])
+             '-3', 'x y', 'key', '*!*@evil.host', 'None'] + [u.nick for u in S.users.values()])
     n = r.choice([0, 1, 2, 2, 3, 3, 4, 4, 5, 6, 8, 9, 9, 10])
     args = [r.choice(pool) for _ in range(n)]
     args = [a for a in args if valid_text(a)]
